@@ -31,6 +31,8 @@ RET, FAIL, ERROR, SKIP, XFAIL, UXSUCCESS, MULTI, KBI, SYSEXIT = (
     "sysexit",
 )
 ALL_KINDS = (RET, FAIL, ERROR, SKIP, XFAIL, UXSUCCESS, MULTI, KBI, SYSEXIT)
+# the stage returns normally, with a value (a test written "return total", a generator test ...)
+RETVAL = "retval"
 BASE_KINDS = (KBI, SYSEXIT)
 # what each kind contributes to the list of raised exceptions (MULTI flattened)
 FLATTEN = {
@@ -173,6 +175,8 @@ def perform(case, ctx, stage, kind):
     """Make the running stage behave as ``kind`` (raises unless RET)."""
     if kind == RET:
         return
+    if kind == RETVAL:
+        return ("a value", stage)
     marker = "%s!%s" % (stage, kind)
     ctx.raised.append((stage, kind, marker))
     ctx.xlog.append(("raise", stage, kind))
@@ -243,7 +247,7 @@ def _cleanup(case, ctx, cid):
     if ctx.config.expect_mismatch == "cleanup" and cid == "1":
         # the expectation fails only now, while the cleanups run
         case.expectThat(1, Equals(2), "expect!cleanup")
-    perform(case, ctx, stage, ctx.decide(stage))
+    return perform(case, ctx, stage, ctx.decide(stage))
 
 
 def _cleanup_kw(case, ctx, cid, fn=None, result=None, function=None):
@@ -275,7 +279,7 @@ def make_class(config):
                 perform(self, ctx, "setUp.pre", k[1])
             super().setUp()
             run_actions(self, ctx, "setUp")
-            perform(self, ctx, "setUp", k)
+            return perform(self, ctx, "setUp", k)
 
         def test_it(self):
             ctx = self._vt_ctx
@@ -286,7 +290,7 @@ def make_class(config):
                 self.expectThat(1, Equals(2), "expect!body")
                 # a later expectation that holds does not take the earlier failure back
                 self.expectThat(1, Equals(1), "expect!body-matching")
-            perform(self, ctx, "test", ctx.decide("test"))
+            return perform(self, ctx, "test", ctx.decide("test"))
 
         def tearDown(self):
             ctx = self._vt_ctx
@@ -297,7 +301,7 @@ def make_class(config):
             if isinstance(k, tuple):
                 perform(self, ctx, "tearDown", k[1])
             super().tearDown()
-            perform(self, ctx, "tearDown", k)
+            return perform(self, ctx, "tearDown", k)
 
         def defaultTestResult(self):
             return self._vt_ctx.default_result
@@ -434,7 +438,7 @@ class ModelRun:
             k = self.decide(stage)
             if isinstance(k, tuple):
                 k = k[1]  # raised before the up-call: same consequences as after it
-        if k != RET:
+        if k not in (RET, RETVAL):
             self.raised.append((stage, k))
             return False
         return True
